@@ -9,6 +9,8 @@ from ..opsum import se_summaries, closure_variants
 from .protocol import standard_operators, short, _exact, FAR_GENERATORS
 
 EMPTY = (('e',), ('q', ()), ('v', frozenset(['None'])))
+# scalar state (flags, counters): must hold its constructed constant again when the iteration ends
+SCALARS = ('bool', 'usize', 'u64', 'u32', 'u16', 'u8', 'isize', 'i64', 'i32', 'i16', 'i8')
 
 # state fields that are allowed to differ from their constructed value at `return FlushAndRestart`
 R3_EXCEPTIONS = {
@@ -21,6 +23,9 @@ R3_EXCEPTIONS = {
     ('renoir::operator::rich_map::RichMap', 'maps_fn'): 'documented per-key closures kept across iterations (reset is commented out upstream; evidence note under C07)',
     ('renoir::operator::window::WindowOperator', 'manager.windows'): 'the per-key managers are kept unless recycle() says they are empty; what a manager keeps across an iteration end is checked by C05.R4',
     ('renoir::operator::iteration::replay::Replay', 'content'): 'the recorded input is replayed every round by design and cleared when the loop finishes (C10)',
+    ('renoir::operator::iteration::replay::Replay', 'content_index'): 'position inside the recorded input: the FlushAndRestart that Replay returns ends a *round* of its own loop, the replay state is reset when the loop finishes (C10)',
+    ('renoir::operator::iteration::replay::Replay', 'input_finished'): 'the input is recorded once and replayed every round by design; reset when the loop finishes (C10)',
+    ('renoir::operator::sink::collect_count::CollectCountSink', 'result'): 'a sink accumulates until Terminate, across iterations, by design (published only on Terminate: C04.R4 / C20.R4)',
 }
 
 
@@ -35,7 +40,7 @@ def state_fields(facts, f, interp):
         if '*' not in ms and fl['name'] not in ms:
             continue
         base = [1, '*', ['f', i, fl['name']]]
-        if ty.startswith(interp.COLL_PREFIXES) or ty.startswith('std::option::Option<'):
+        if ty.startswith(interp.COLL_PREFIXES) or ty.startswith('std::option::Option<') or ty in SCALARS:
             out.append((base, fl['name'], ty))
         elif fl.get('adt') in facts.adts and facts.adts[fl['adt']]['kind'] == 'struct' and not ty.startswith(('&', '*')) and fl['name'] != 'prev':
             for j, g in enumerate(facts.adts[fl['adt']]['variants'][0]['fields']):
@@ -62,10 +67,16 @@ def restart_invariant(ctx, only=None):
             init = a.init.get(key)
             if len(place) > 3 and init is None:
                 init = ('e',)   # nested collections of a Default-constructed helper struct start empty
-            if init not in EMPTY:
+            scalar = ty in SCALARS
+            if scalar and not (init and init[0] == 'c'):
+                continue     # a scalar whose constructed value is not one constant is configuration, not state
+            if not scalar and init not in EMPTY:
                 continue     # configured by setup or not an emptiable state
             total += 1
-            bad = [n for n in fars if g.pre_term[n].get(key) not in EMPTY]
+            if scalar:
+                bad = [n for n in fars if g.pre_term[n].get(key) != init]
+            else:
+                bad = [n for n in fars if g.pre_term[n].get(key) not in EMPTY]
             site = '%s.%s' % (short(f), name)
             ctx.inst(site, {'operator': f.path, 'field': name, 'type': ty[:80],
                             'return FlushAndRestart nodes': len(fars),
@@ -78,8 +89,8 @@ def restart_invariant(ctx, only=None):
                 continue
             p = g.path_to(bad[0], [g.root])
             ctx.viol('%s|carry-over|%s' % (f.impl_adt, name), f.at,
-                     '%s::next can return FlushAndRestart while state field `%s` is not known to be empty/None: '
-                     'results or state of this iteration can leak into the next one' % (short(f), name),
+                     '%s::next can return FlushAndRestart while state field `%s` is not known to be %s: '
+                     'results or state of this iteration can leak into the next one' % (short(f), name, ('back at its constructed value %s' % init[1]) if scalar else 'empty/None'),
                      {'path': g.describe_path(p) if p else None, 'value': repr(g.pre_term[bad[0]].get(key))})
     ctx.count('state_fields_checked', total)
 
@@ -127,11 +138,32 @@ def c05_r4(ctx):
             ctx.count('process_returns', len(rets))
             ctx.count('process_returns_recycled', len(rets) - len(live))
             rets = live
+            ms = mod_fields(ctx.facts, f)
+            from ..opsum import initial_self_state
+            init_st, _ = initial_self_state(ctx.facts, f.impl_adt, {})
             for i, fl in enumerate(adt['variants'][0]['fields']):
                 ty = fl['ty']
+                key = pkey([1, '*', ['f', i, fl['name']]])
+                if ty in SCALARS:
+                    # scalar state of a manager (a position counter, a flag): written by process => must be back at its
+                    # constructed constant when the iteration ends (the manager object survives unless it is recycled)
+                    if '*' not in ms and fl['name'] not in ms:
+                        continue
+                    ini = init_st.get(key)
+                    site = '%s.%s|%s' % (short(f), fl['name'], variant)
+                    ctx.inst(site, {'manager': f.path, 'field': fl['name'], 'constructed value': repr(ini), 'value at returns': sorted({repr(g.pre_term[n].get(key)) for n in rets})})
+                    if not (ini and ini[0] == 'c'):
+                        raise Inconclusive('%s.%s is written by process() but its constructed value is not a constant' % (short(f), fl['name']))
+                    bad = [n for n in rets if g.pre_term[n].get(key) != ini]
+                    if bad:
+                        p = g.path_to(bad[0], [g.root])
+                        ctx.viol('%s|scalar-kept|%s|%s' % (f.impl_adt, fl['name'], variant), f.at,
+                                 '%s::process(%s) can return with `%s` not reset to its constructed value %s: the position inside '
+                                 'the previous iteration leaks into the next one' % (short(f), variant, fl['name'], ini[1]),
+                                 {'path': g.describe_path(p) if p else None})
+                    continue
                 if not (ty.startswith(it.COLL_PREFIXES) or ty.startswith('std::option::Option<')):
                     continue
-                key = pkey([1, '*', ['f', i, fl['name']]])
                 vals = {repr(g.pre_term[n].get(key)) for n in rets}
                 site = '%s.%s|%s' % (short(f), fl['name'], variant)
                 ctx.inst(site, {'manager': f.path, 'field': fl['name'], 'input': variant, 'value at returns': sorted(vals)})
@@ -154,3 +186,76 @@ def c08_r4(ctx):
 @rule('C07', 'R5', 'fold / keyed fold / reduce operators start every iteration from their constructed state')
 def c07_r5(ctx):
     restart_invariant(ctx, only=lambda adt: '::fold::' in adt or '::keyed_fold::' in adt or 'fold_' in adt or '::reduce' in adt)
+
+
+def recycle_implies_empty(ctx, only):
+    """WindowOperator drops a per-key manager as soon as `recycle()` returns true (the `retain` of C13.R3).  A manager that is
+    dropped while it still holds an open window loses the elements accumulated in it: they appear in no result.  So on every
+    path on which `recycle()` may return true, every slot field of the manager (collection / Option of a crate-local slot type)
+    must be known to be empty / None.  The manager's state is unknown when `recycle()` is entered; the only knowledge is what
+    `recycle()` itself tests (is_empty / is_none / len() == 0 ...)."""
+    facts = ctx.facts
+    impls = [i for i in facts.impls_of(WM_TRAIT) if only(i.get('self_adt') or '')]
+    if not impls:
+        raise AnchorMissing('no impl of WindowManager selected')
+    for i in sorted(impls, key=lambda x: x['self_adt']):
+        adt_path = i['self_adt']
+        adt = facts.adts[adt_path]
+        name = adt_path.rsplit('::', 1)[-1]
+        rec = facts.method(adt_path, 'recycle', trait=WM_TRAIT, required=False)
+        slots = []
+        it0 = None
+        for j, fl in enumerate(adt['variants'][0]['fields']):
+            ty = fl['ty']
+            if (ty.startswith(Interp.COLL_PREFIXES) or ty.startswith('std::option::Option<')) and 'renoir::' in ty:
+                slots.append((pkey([1, '*', ['f', j, fl['name']]]), fl['name']))
+        if rec is None:
+            ctx.inst('%s|recycle' % name, {'manager': adt_path, 'recycle': 'trait default (never dropped early)', 'slot fields': [n for _, n in slots]}, nontrivial=False)
+            continue
+        if not slots:
+            raise Inconclusive('%s has a recycle() but no slot field was recognised' % adt_path)
+        it = Interp(facts, rec, summaries={})
+        try:
+            g = it.explore(0, {})
+        except Bound as e:
+            raise Inconclusive(str(e))
+        rets = g.return_nodes()
+        seen = []
+        for n in rets:
+            v = g.ret_value(n)
+            st = g.pre_term[n]
+            if v == ('c', 'false'):
+                seen.append('false')
+                continue
+            implied = {}
+            if v and v[0] == 'isempty':
+                implied[v[1]] = True
+            elif v and v[0] == 'isv' and v[2] == 'None' and v[3] is True:
+                implied[v[1]] = True
+            elif v and v[0] == 'isv' and v[2] == 'Some' and v[3] is False:
+                implied[v[1]] = True
+            seen.append(repr(v))
+            for key, fname in slots:
+                if implied.get(key) or st.get(key) in EMPTY:
+                    continue
+                p = g.path_to(n, [g.root])
+                ctx.viol('%s|recycle-not-empty|%s' % (adt_path, fname), rec.at,
+                         '%s::recycle() may return true while `%s` is not known to be empty (returned value: %s): WindowOperator drops a '
+                         'recycled manager, so the elements accumulated in a still-open window would appear in no result'
+                         % (name, fname, 'unrelated to the field' if v is None else repr(v)), {'path': g.describe_path(p) if p else None})
+        ctx.inst('%s|recycle' % name, {'manager': adt_path, 'slot fields': [n for _, n in slots], 'return values': sorted(set(seen))})
+
+
+@rule('C13', 'R5', 'a window manager reports recycle() only when it holds no open window (event-time, transaction)')
+def c13_r5(ctx):
+    recycle_implies_empty(ctx, lambda a: 'event_time' in a or 'transaction' in a)
+
+
+@rule('C14', 'R5', 'a window manager reports recycle() only when it holds no open window (processing-time, session)')
+def c14_r5(ctx):
+    recycle_implies_empty(ctx, lambda a: 'processing_time' in a or 'session' in a)
+
+
+@rule('C12', 'R5', 'a count window manager is never dropped while it holds an open group (recycle() only when empty)')
+def c12_r5(ctx):
+    recycle_implies_empty(ctx, lambda a: '::count::' in a)
